@@ -17,4 +17,10 @@ def main (args : List String) : IO UInt32 := do
   let hout ← IO.getStdout
   match args with
   | ["store"] => loop StoreDrv.step hin hout StoreDrv.init; return 0
+  | ["arch"] => loop ArchDrv.step hin hout ArchDrv.init; return 0
+  | ["esctl"] => loop EsControlDrv.step hin hout EsControlDrv.init; return 0
+  | ["viz"] => loop VizDrv.step hin hout VizDrv.init; return 0
+  | ["ranker"] => loop RankerDrv.step hin hout RankerDrv.init; return 0
+  | ["sched"] => loop SchedulerDrv.step hin hout SchedulerDrv.init; return 0
+  | ["opt"] => loop OptDrv.step hin hout OptDrv.init; return 0
   | _ => IO.eprintln "usage: driver <machine>"; return 2
